@@ -3,12 +3,14 @@
    (handshake).  Every crypto function is universally quantified; each
    hypothesis on it is spelled out in the theorem that needs it.
 
-   Definitions used in the statements that are not in Model.v:
-     lex_lt, total_len            (Proofs.v)
-     chain, slot_plain, no_forgery (TamperProofs.v)
-     hs_honest                    (HsProofs.v: the six calls of a handshake) *)
+   Every definition used in a statement lives in Model.v (the model of
+   noise.go / conn.go) or Spec.v (specification-side definitions: lex_lt,
+   total_len, chain, slot_plain, no_forgery, hs_honest, act3_ct, act3_tag,
+   cop / crun_all / committed_all / returned, spec_reads, delivered); both
+   files contain definitions only. *)
 From Coq Require Import List NArith Sorted.
-From LV Require Import Noise.Model Noise.Proofs Noise.TamperProofs Noise.HsProofs.
+From LV Require Import Noise.Model Noise.Spec.
+From LV Require Noise.Proofs Noise.TamperProofs Noise.HsProofs Noise.ConnProofs.
 Import ListNotations.
 Local Open Scope N_scope.
 
@@ -38,7 +40,7 @@ Theorem C11_handshake_agrees :
       m_recv K W SK PK i3 = m_send K W SK PK r3 /\
       m_remote_static K W SK PK r3 = Some (pub ls) /\
       length a1 = 50%nat /\ length a2 = 50%nat /\ length a3 = 66%nat.
-Proof. exact handshake_agrees. Qed.
+Proof. exact HsProofs.handshake_agrees. Qed.
 
 (* Under an ideal, key-binding AEAD and injective ECDH / HKDF:
    (a) dialling any static key other than the responder's makes RecvActOne fail;
@@ -46,9 +48,17 @@ Proof. exact handshake_agrees. Qed.
    (c) act one / act two whose 16 MAC bytes differ in any way from the honest
        ones are refused; (d) act one / act two whose ephemeral key is replaced
        while the MAC is kept are refused.
-   PARTIAL: modifications of the ciphertext / MAC of act three are not covered
-   by a theorem (the correspondence run exercises them). *)
-Theorem C11_handshake_rejects_partial :
+   Act three (act3_ct m P / act3_tag m le P: the 49 + 16 bytes a responder in
+   state m with ephemeral le expects from an initiator with static key P):
+   (e) an ACCEPTED act three is byte for byte act3_ct ++ act3_tag of one key
+       P, and P is the static key the responder records; so every other 66
+       byte string with version 0 is refused;
+   (f) the encrypted static key (ciphertext or its MAC) changed in any way,
+       final MAC kept: refused (MAC error, or the decrypted key does not parse);
+   (g) the final MAC changed in any way: refused.
+   Extra hypotheses for (e)-(g): Open(Seal p) = p and a 33-byte string parses
+   to at most one point (compressed encoding is canonical). *)
+Theorem C11_handshake_rejects :
   forall (K W SK PK : Type) (wb : N -> W) (wv : W -> option N)
          (enc : K -> N -> option K -> list N -> list W)
          (dec : K -> N -> option K -> list W -> option (list N)) (hkdf : K -> option K -> K * K)
@@ -63,6 +73,9 @@ Theorem C11_handshake_rejects_partial :
     (forall a b : SK, dh a (pub b) = dh b (pub a)) ->
     (forall (a : SK) (P P' : PK), dh a P = dh a P' -> P = P') ->
     (forall s a b : K, snd (hkdf s (Some a)) = snd (hkdf s (Some b)) -> a = b) ->
+    (forall k n ad p, dec k n ad (enc k n ad p) = Some p) ->
+    (forall (a b : list N) (P : PK),
+        length a = 33%nat -> length b = 33%nat -> parse a = Some P -> parse b = Some P -> a = b) ->
     (forall (ls rs ei : SK) (target : PK) (a1 : list W) (i1 : machine K W SK PK),
         target <> pub rs ->
         gen_act_one K W SK PK wb enc hkdf mixb mixc pub dh ser
@@ -101,8 +114,30 @@ Theorem C11_handshake_rejects_partial :
         tag = fst (encrypt_and_hash K W enc hkdf mixc
                      (mix_key K hkdf (mix_hash_b K mixb (m_sym K W SK PK m) (ser e)) (dh le e)) nil) ->
         recv_act_two K W SK PK wv dec hkdf mixb mixc dh ser parse m
-                     (wb handshake_version :: map wb (ser e') ++ tag) = Err EMac).
-Proof. exact handshake_rejects. Qed.
+                     (wb handshake_version :: map wb (ser e') ++ tag) = Err EMac) /\
+    (forall (m : machine K W SK PK) (le : SK) (c' t' : list W) (m' : machine K W SK PK),
+        m_local_eph K W SK PK m = Some le ->
+        length c' = 49%nat -> length t' = 16%nat ->
+        recv_act_three K W SK PK wv dec hkdf mixc dh parse m (wb handshake_version :: c' ++ t') = Ok m' ->
+        exists P : PK,
+          c' = act3_ct K W SK PK enc hkdf mixc ser m P /\
+          t' = act3_tag K W SK PK enc hkdf mixc dh ser m le P /\
+          m_remote_static K W SK PK m' = Some P) /\
+    (forall (m : machine K W SK PK) (le : SK) (P : PK) (c' : list W),
+        m_local_eph K W SK PK m = Some le ->
+        length c' = 49%nat ->
+        c' <> act3_ct K W SK PK enc hkdf mixc ser m P ->
+        exists e : err,
+          recv_act_three K W SK PK wv dec hkdf mixc dh parse m
+            (wb handshake_version :: c' ++ act3_tag K W SK PK enc hkdf mixc dh ser m le P) = Err e /\
+          (e = EMac \/ e = EParse)) /\
+    (forall (m : machine K W SK PK) (le : SK) (P : PK) (t' : list W),
+        m_local_eph K W SK PK m = Some le ->
+        length t' = 16%nat ->
+        t' <> act3_tag K W SK PK enc hkdf mixc dh ser m le P ->
+        recv_act_three K W SK PK wv dec hkdf mixc dh parse m
+          (wb handshake_version :: act3_ct K W SK PK enc hkdf mixc ser m P ++ t') = Err EMac).
+Proof. exact HsProofs.handshake_rejects. Qed.
 
 (* For EVERY interleaving of WriteMessage calls (any sizes; longer than 65535
    or issued while a message is pending = refused) and Flush calls against a
@@ -135,7 +170,7 @@ Theorem C11_stream_roundtrip :
          r_accepted K W r = ms ++ p :: nil /\
          read_n K W dec hkdf (length ms) c (r_wire K W r) = Some (ms, c1, part) /\
          (exists c2 : cstate K, read_message K W dec hkdf c1 part = (Err EEof, c2, nil))).
-Proof. exact stream_roundtrip. Qed.
+Proof. exact Proofs.stream_roundtrip. Qed.
 
 (* Over any send history the (rotation epoch, nonce) pairs handed to Seal are
    strictly increasing lexicographically, every nonce is below the rotation
@@ -150,7 +185,7 @@ Theorem C11_nonce_unique :
     StronglySorted lex_lt (r_used K W r) /\
     Forall (fun p : N * N => snd p < key_rotation_interval) (r_used K W r) /\
     NoDup (r_used K W r).
-Proof. intros K W enc dec hkdf. exact (nonce_unique K W enc dec hkdf). Qed.
+Proof. intros K W enc dec hkdf. exact (Proofs.nonce_unique K W enc dec hkdf). Qed.
 
 (* Under an ideal AEAD, for ANY byte stream S' handed to the reader (modified,
    truncated, re-ordered, replayed, reflected, spliced ...) that contains no
@@ -181,6 +216,68 @@ Theorem C11_tamper_rejected :
         read_n K W dec hkdf (S i) c0 (fst (ideal_stream K W enc hkdf c0 (firstn i msgs)) ++ X) = None).
 Proof.
   intros K W enc dec hkdf H. split.
-  - exact (read_authentic K W enc dec hkdf H).
-  - exact (first_affected_read_fails K W enc dec hkdf H).
+  - exact (TamperProofs.read_authentic K W enc dec hkdf H).
+  - exact (TamperProofs.first_affected_read_fails K W enc dec hkdf H).
+Qed.
+
+(* brontide.Conn (conn.go) over the Machine.  For EVERY sequence of
+   Conn.Write(b) (any length: one record up to 65535 bytes, else the chunking
+   loop), Conn.WriteMessage(b) and Conn.Flush() calls against a net.Conn that
+   takes any number of bytes per Write call and may time out at any point
+   (ops : list cop), from any cipher state (any number of key rotations):
+   (1) bytes taken by the net.Conn ++ bytes still buffered = the honest
+       encoding of the records handed to WriteMessage (cn_msgs), in order;
+   (2) the counts returned by Write / Flush add up to the plaintext sent;
+   (3) one result per call, and the model's chunk loop never runs out of fuel
+       (Conn.Write terminates);
+   (4) if every call handed over all of its bytes (committed_all), the records
+       concatenate to exactly the byte strings written, in order;
+   (5) with nothing pending, the peer's Conn.Read calls with ANY sequence of
+       buffer sizes ks return what spec_reads computes on the plaintext
+       (at most k bytes of the current record, the rest is kept, never across
+       a record boundary); the bytes delivered are a prefix of the bytes sent
+       and, given enough non-empty reads, all of them.
+   Second clause, for a single Conn.Write(b): the records are at most 65535
+   bytes, concatenate to a prefix of b, to all of b when no error is returned
+   (then the count is len b and nothing stays buffered) or when a one-record
+   write is cut short by the net.Conn.
+   Hypotheses: Open(Seal p) = p and |Seal p| = |p| + 16. *)
+Theorem C11_conn_stream_roundtrip :
+  forall (K W : Type) (enc : K -> N -> option K -> list N -> list W)
+         (dec : K -> N -> option K -> list W -> option (list N)) (hkdf : K -> option K -> K * K),
+    (forall k n ad p, len (enc k n ad p) = len p + mac_size) ->
+    (forall k n ad p, dec k n ad (enc k n ad p) = Some p) ->
+    (forall (c : cstate K) (ops : list cop),
+      let r := crun_all K W enc hkdf c ops in
+      let s := cn_snd K W r in
+      cn_wire K W r ++ sn_hdr s ++ sn_body s = fst (ideal_stream K W enc hkdf c (cn_msgs K W r)) /\
+      sn_cs s = snd (ideal_stream K W enc hkdf c (cn_msgs K W r)) /\
+      returned (cn_results K W r) + (len (sn_body s) - mac_size) = len (concat (cn_msgs K W r)) /\
+      length (cn_results K W r) = length ops /\
+      Forall (fun x : N * cerr => snd x <> CFuel) (cn_results K W r) /\
+      (Forall2 committed_all ops (cn_results K W r) ->
+       concat (cn_msgs K W r) = concat (map payload ops)) /\
+      (sn_hdr s = nil -> sn_body s = nil ->
+       forall ks : list N,
+         let outs := fst (conn_reads K W dec hkdf ks (mkCR K W c nil (cn_wire K W r))) in
+         outs = spec_reads ks nil (cn_msgs K W r) /\
+         (exists rest : list N, concat (cn_msgs K W r) = delivered outs ++ rest) /\
+         (Forall (fun k : N => 0 < k) ks ->
+          (length (concat (cn_msgs K W r)) + length (cn_msgs K W r) <= length ks)%nat ->
+          delivered outs = concat (cn_msgs K W r)))) /\
+    (forall (s : sender K W) (b : list N) (rs : list wresp),
+      let o := conn_write K W enc hkdf s b rs in
+      cw_err K W o <> CFuel /\
+      Forall (fun m : list N => len m <= max_uint16) (cw_msgs K W o) /\
+      exists tail : list N,
+        b = concat (cw_msgs K W o) ++ tail /\
+        (cw_err K W o = CNone \/ (cw_err K W o = CWriter /\ len b <= max_uint16) -> tail = nil) /\
+        (cw_err K W o = CNone ->
+         cw_n K W o = len b /\
+         (sn_hdr s = nil -> sn_body s = nil ->
+          sn_hdr (cw_snd K W o) = nil /\ sn_body (cw_snd K W o) = nil))).
+Proof.
+  intros K W enc dec hkdf Hlen Hdec. split.
+  - exact (ConnProofs.conn_stream_roundtrip K W enc dec hkdf Hlen Hdec).
+  - exact (ConnProofs.conn_write_commit K W enc dec hkdf Hlen).
 Qed.
